@@ -282,7 +282,7 @@ func genSpec(t *rapid.T, name string, earlier []string) sc.ProcSpec {
 	if pbt.Pct(t, 25) {
 		p.ReadyProbe = true
 	}
-	if len(earlier) > 0 && pbt.Pct(t, 25) {
+	if len(earlier) > 0 && pbt.Pct(t, 40) {
 		p.Deps = []sc.Dep{{On: pbt.Pick(t, earlier), Cond: "process_started"}}
 	}
 	return p
@@ -390,9 +390,18 @@ func genUpd(t *rapid.T) UpdCase {
 			}
 			np[i].Deps = deps
 		}
-		if pbt.Pct(t, 40) {
-			np = append(np, genSpec(t, fmt.Sprintf("p%d", next), nil))
+		if pbt.Pct(t, 45) {
+			// a new process, in half of the cases depending on processes that stay
+			var on []string
+			if pbt.Pct(t, 50) {
+				on = kept
+			}
+			np = append(np, genSpec(t, fmt.Sprintf("p%d", next), on))
 			next++
+			if pbt.Pct(t, 30) {
+				np = append(np, genSpec(t, fmt.Sprintf("p%d", next), []string{fmt.Sprintf("p%d", next-1)}))
+				next++
+			}
 		}
 		if len(np) == 0 {
 			np = append(np, genSpec(t, fmt.Sprintf("p%d", next), nil))
